@@ -541,6 +541,19 @@ Proof.
   rewrite Hx. reflexivity.
 Qed.
 
+(* round 7 table: a cancel reject never revives a finished order, nor touches its ids *)
+Lemma finished_ignores_reject legacy o clid orig st :
+  is_finished o = true ->
+  let ob := process_cancel_rej_report legacy o (RRej clid orig st) in
+  snd ob = Ok false /\ o_status (fst ob) = o_status o /\ o_senum (fst ob) = o_senum o
+  /\ o_clord (fst ob) = o_clord o /\ o_orig (fst ob) = o_orig o.
+Proof.
+  unfold is_finished. intro H. cbv zeta.
+  assert (Hc : (change_status (o_status o) K_ORDERCANCELREJECT 0 st false =? T) = false).
+  { apply is_finished_iff in H. destruct H as [H|[H|[H|H]]]; rewrite H; reflexivity. }
+  unfold process_cancel_rej_report. rewrite Hc. destruct (st =? REJECTED); cbn; auto.
+Qed.
+
 (* ---------- 4e. the ClOrdID chain: one root, strictly increasing counter, fresh ids *)
 Definition owf (R : str) (o : order) : Prop :=
   R <> [] /\ clord_root (o_clord o) = R /\ o_clord o <> [] /\
